@@ -52,7 +52,15 @@ def data():
     d = os.path.join(core.REPO, "src", "pyrealb", "data")
     lex = json.load(open(os.path.join(d, "lexicon-en.json"), encoding="utf-8"))
     rules = json.load(open(os.path.join(d, "rules-en.json"), encoding="utf-8"))
-    _DATA.update(lex=lex, rules=rules, consts=TR.extract())
+    # non-strict: when a code-shape constant can no longer be lifted (broken tie) the oracle still needs the data part
+    consts = TR.extract(strict=False)
+    missing = [k for k in ("compoundAux", "compoundPart", "intPrefix", "contractionEnTable", "prepositionList", "closedParadigms")
+               if k not in consts]
+    if missing:
+        from harness.translate import TranslateError
+        raise TranslateError("clauseen: %s could not be lifted (%s): not even the model-independent oracle can run"
+                             % (", ".join(missing), consts.get("_error")))
+    _DATA.update(lex=lex, rules=rules, consts=consts)
     verbs = {}
     for w, e in lex.items():
         if "V" in e and e["V"].get("tab") in rules["conjugation"] and re.fullmatch(r"[a-z]+", w):
@@ -791,7 +799,7 @@ def random_spec(rng, lexicon_wide=True):
 
 def _work(task):
     """one chunk: correspondence model/implementation in both notations + oracles + shrinking"""
-    kind, arg, driver, want = task
+    kind, arg, driver, want, oracle_only = task
     core.ensure_repo_on_path()
     if kind == "product":
         items = list(full_product(*arg))
@@ -803,7 +811,9 @@ def _work(task):
     for spec, typ in items:
         for nota in ("phrase", "dep"):
             lines.append(model_line(spec, typ, nota))
-    model = core.run_driver(lines, driver)
+    # oracle-only mode: the model (translator or driver) is unavailable; the library is still realized in both
+    # notations and judged by the direct oracles
+    model = None if oracle_only else core.run_driver(lines, driver)
     ev = Evaluator()
     sh = Shrinker(ev)
     res = {"n": 0, "diffs": [], "ndiffs": 0, "fails": {}, "digests": [], "samples": [], "dist": {}, "nontrivial": 0, "errs": 0}
@@ -818,12 +828,16 @@ def _work(task):
                 full[nota] = (ans, raw, [])
         tc = typ_clean(typ)
         for nota in ("phrase", "dep"):
-            line, m = lines[li], model[li]
-            li += 1
-            if "driver_error" in m:
-                raise core.Infra("driver error: %s on %s" % (m["driver_error"], core.canon(line)[:300]))
+            line = lines[li]
             ans = full[nota][0]
-            m2 = {k: v for k, v in m.items() if k != "sym"}
+            if model is None:
+                m2 = ans
+            else:
+                m = model[li]
+                if "driver_error" in m:
+                    raise core.Infra("driver error: %s on %s" % (m["driver_error"], core.canon(line)[:300]))
+                m2 = {k: v for k, v in m.items() if k != "sym"}
+            li += 1
             res["n"] += 1
             if "err" in ans:
                 res["errs"] += 1
@@ -865,19 +879,41 @@ def _work(task):
     return res
 
 
-def sweep(ctx, want=("C04", "C08"), label="clause"):
-    """the correspondence + oracle sweep; fills ctx (diffs, failures, coverage)"""
+def model_unavailable(ctx):
+    """why the model side cannot be trusted/run in this check, or None: the translator broke (Gen/* is stale) or the
+    driver could not be built"""
+    for pf in ctx.proof_failures:
+        if pf.get("theorem") in ("translator", "driver"):
+            return "%s: %s" % (pf.get("theorem"), str(pf.get("msg"))[:200])
+    if ctx.notes.get("driver_build_failed"):
+        return "driver build failed"
+    if not os.path.exists(os.path.join(core.BIN, ctx.driver)):
+        return "driver not built"
+    if "_error" in data()["consts"]:
+        return "translator: " + data()["consts"]["_error"][:200]
+    return None
+
+
+def sweep(ctx, want=("C04", "C08"), label="clause", oracle_only=None):
+    """the correspondence + oracle sweep; fills ctx (diffs, failures, coverage).
+    oracle_only (default: decided by model_unavailable): no model comparison, only the real library in both notations
+    judged by the direct oracles — so that a concrete failing clause is still found when the tie itself is broken"""
     import time
     t0 = time.time()
     core.ensure_repo_on_path()
     data()
+    if oracle_only is None:
+        why = model_unavailable(ctx)
+        oracle_only = why is not None
+        if why:
+            ctx.notes["oracle_only(%s)" % label] = why
     tasks = []
     if ctx.tier == "thorough" or getattr(ctx, "deep", False) and os.environ.get("VERIF_DEEP_FULL"):
         for v in PANEL:
             for sj in SUBJECTS:
-                tasks.append(("product", (v, sj), ctx.driver, want))
+                tasks.append(("product", (v, sj), ctx.driver, want, oracle_only))
         for k in range(48):
-            tasks.append(("sample", (ctx.rng.getrandbits(48), 2000, True), ctx.driver, want))
+            tasks.append(("sample", (ctx.rng.getrandbits(48), 2000, True), ctx.driver, want, oracle_only))
         ctx.exhaustive = True
         ctx.notes["exhaustive_scope"] = ("4 tenses x 6 mod x perf x prog x pas x neg x contr x 14 int, for each of the %d panel verbs "
                                          "x %d subjects (object of the opposite number, one prepositional complement), both notations"
@@ -886,7 +922,7 @@ def sweep(ctx, want=("C04", "C08"), label="clause"):
         n = 10000 if not getattr(ctx, "deep", False) else 40000
         per = 500
         for k in range(n // per):
-            tasks.append(("sample", (ctx.rng.getrandbits(48), per, True), ctx.driver, want))
+            tasks.append(("sample", (ctx.rng.getrandbits(48), per, True), ctx.driver, want, oracle_only))
     nproc = min(16, os.cpu_count() or 1)
     with multiprocessing.get_context("fork").Pool(nproc) as pool:
         results = pool.map(_work, tasks, chunksize=1)
@@ -895,7 +931,8 @@ def sweep(ctx, want=("C04", "C08"), label="clause"):
     for r in results:
         total += r["n"]
         ctx.cov["evaluations"] += r["n"]
-        ctx.cov["traces_validated_against_impl"] += r["n"]
+        if not oracle_only:
+            ctx.cov["traces_validated_against_impl"] += r["n"]
         ctx.distinct.update(r["digests"])
         for smp in r["samples"]:
             if len(ctx.cov["samples"]) < 8:
